@@ -410,6 +410,58 @@ pub fn reflection_case(unsecure: bool) -> Result<u64, Violation> {
     Ok(steps)
 }
 
+/// The client limit is changed while a session is running (raised, lowered, raised again): the anti-replay state of the
+/// connected clients must survive — datagrams surfaced before the change stay refused, fresh ones still surface.
+pub fn limit_change_replay_case(initial: usize, steps: &[usize]) -> Result<u64, Violation> {
+    let bad = |sig: &str, msg: String| Violation::new(format!("C04/limit-change/{}", sig), format!("max_clients {} then {:?}: {}", initial, steps, msg));
+    let public = vec![server_addr(0)];
+    let mut server = new_server(initial, public.clone(), Duration::ZERO);
+    let mut clients: Vec<NetcodeClient> = vec![];
+    let n = initial.min(2);
+    for k in 0..n {
+        let t = make_token(&TokenSpec::new(1 + k as u64, 11 + k as u8, public.clone()));
+        let mut c = new_client(Duration::ZERO, &t);
+        if !nc::connect(&mut server, &mut c, client_addr(1 + k as u16))? {
+            return Err(bad("fixture", format!("handshake of client {} failed", k)));
+        }
+        clients.push(c);
+    }
+    let mut sent: Vec<(usize, Vec<u8>, Vec<u8>)> = vec![];
+    let mut steps_n = 0u64;
+    let mut round = 0u8;
+    let mut exchange = |server: &mut NetcodeServer, clients: &mut Vec<NetcodeClient>, sent: &mut Vec<(usize, Vec<u8>, Vec<u8>)>, round: u8| -> Result<(), Violation> {
+        for k in 0..clients.len() {
+            for j in 0..3u8 {
+                let body = vec![b'p', k as u8, round, j];
+                let c = &mut clients[k];
+                let d = crate::link::guard("NetcodeClient::generate_payload_packet", || c.generate_payload_packet(&body).map(|(_, p)| p.to_vec()).ok())?.ok_or_else(|| bad("fixture", "client cannot send".into()))?;
+                match nc::srv_process(server, client_addr(1 + k as u16), &d)? {
+                    nc::SR::Payload { client_id, bytes } if client_id == 1 + k as u64 && bytes == body => {}
+                    other => return Err(bad("fresh-genuine-payload-refused", format!("round {} payload {} of client {} produced {}", round, j, k, other.kind()))),
+                }
+                sent.push((k, d, body));
+            }
+        }
+        Ok(())
+    };
+    exchange(&mut server, &mut clients, &mut sent, round)?;
+    for &l in steps {
+        let s = &mut server;
+        crate::link::guard("NetcodeServer::set_max_clients", || s.set_max_clients(l))?;
+        round += 1;
+        // every datagram surfaced so far is a replay now
+        for (k, d, body) in &sent {
+            let r = nc::srv_process(&mut server, client_addr(1 + *k as u16), d)?;
+            if r != nc::SR::None {
+                return Err(bad("replay-surfaces-after-limit-change", format!("after set_max_clients({}) the already surfaced payload {:?} of client {} produced {}", l, body, k, r.kind())));
+            }
+            steps_n += 1;
+        }
+        exchange(&mut server, &mut clients, &mut sent, round)?;
+    }
+    Ok(steps_n)
+}
+
 pub fn run(tier: Tier) -> i32 {
     let mut rep = Report::new("C04", tier);
     rep.rule("M1: every history up to length L over {deliver the genuine payload packet with sequence s (a second occurrence is the replay)} and, in one slot per history, {a tampered copy: prefix type/length bit, sequence bit, ciphertext bit, MAC bit, truncated by 1/16, extended by 1, from another connected client's address, sealed under another session's keys, sealed under another protocol id}, for sequence alphabets at the window boundaries (s, s+-255/256, multiples of 256) at bases 0, 2^32-256 (+2^56, 2^64-600), against both receivers (NetcodeServer::process_packet, NetcodeClient::process_packet) of a connected session; oracle = reference window: non-authentic surfaces nothing and leaves the anti-replay state (hook digest) unchanged; genuine surfaces at most once, byte-identical, attributed to the peer's id, and must surface when fresh and < 256 behind the highest accepted");
@@ -439,10 +491,39 @@ pub fn run(tier: Tier) -> i32 {
         }
         rep.add_sweep("reflection", n, n, 2, vec!["4 payloads each way in a secure and an unsecure session: an endpoint's own datagram presented back to it surfaces nothing and changes nothing; the peer's genuine datagrams with the same sequence numbers still surface".to_string()]);
     }
+    // the client limit changes while sessions run
+    {
+        let cases = limit_change_cases();
+        for (i, (initial, steps)) in cases.iter().enumerate() {
+            if let Err(v) = limit_change_replay_case(*initial, steps) {
+                rep.violation("limit-change", v, J::obj().set("kind", J::s("limit-change")).set("case", J::i(i as u64)));
+            }
+        }
+        rep.add_sweep("limit-change", cases.len() as u64, cases.len() as u64, 2, vec![format!("{:?}: payloads of the connected clients before and after every set_max_clients; everything surfaced earlier is refused as a replay afterwards, fresh payloads surface", cases)]);
+    }
     rep.finish()
 }
 
+pub fn limit_change_cases() -> Vec<(usize, Vec<usize>)> {
+    vec![(1, vec![2]), (2, vec![3]), (2, vec![5, 2, 9]), (2, vec![1, 4]), (1, vec![1024]), (4, vec![8, 16, 32])]
+}
+
 pub fn replay(j: &J) -> i32 {
+    if j.get("kind").and_then(|k| k.as_str()) == Some("limit-change") {
+        let i = j.get("case").and_then(|x| x.as_i()).unwrap_or(0) as usize;
+        let cs = limit_change_cases();
+        let Some((initial, steps)) = cs.get(i) else { return 2 };
+        return match limit_change_replay_case(*initial, steps) {
+            Err(v) => {
+                println!("RESULT: violation {} — {}", v.signature, v.message);
+                1
+            }
+            Ok(_) => {
+                println!("RESULT: no violation");
+                0
+            }
+        };
+    }
     if j.get("kind").and_then(|k| k.as_str()) == Some("reflection") {
         let u = matches!(j.get("unsecure"), Some(J::Bool(true)));
         return match reflection_case(u) {
